@@ -1,11 +1,357 @@
 //! Projections of a compilation used by property C08 (engine `compile`, projection names `c08:<name>`).
+//!
+//! `c08:request[;r=<i>.<j>…][;a=<hexkey>:<hexvalue>,…]` — the generator request, byte for byte:
+//!   the files listed after `r=` are marked as reference files (`is_source = false`, all others `true`), then the REAL
+//!   conversion (`definition_types::SliceFile::from`, slicec/src/slice_file_converter.rs, `#[path]`-included from the
+//!   repository) and the REAL encoders (slicec/src/definition_types.rs) run in the arrangement of
+//!   `encode_generate_code_request` (slicec/src/main.rs, replicated below: it lives in the binary crate's `main.rs`
+//!   and cannot be included), followed — when `a=` is present — by `Arguments(args)` as `spawn_plugin_process` appends
+//!   them. Output: the bytes in lower-case hex (`-` = empty), `errors:<codes>` when the compilation has errors (no
+//!   request is built then), `panic` when conversion or encoding panicked, `refused` when the encoder returned `Err`.
+//!
+//! Implementation-side oracle (on the produced bytes alone, with a hand-written walker that follows
+//! slice/Compiler/*.slice and does NOT use definition_types.rs): the stream decodes completely (operation name, source
+//! files, reference files, then the arguments, nothing left over); every numeric type id of symbol `i` is `< i` and
+//! names a Sequence/Dictionary/Result symbol of the same file; every other type id is a primitive keyword or the
+//! scoped identifier of a struct / enum / custom type of some transmitted file; every base is an interface of some
+//! transmitted file; every doc-comment link that the compiler resolved names an entity of some transmitted file; the
+//! source/reference split and the file order are those of the compilation. A failed check is reported in place of the
+//! bytes as `oracle-failed(<reason>)` (it then shows up as a difference to the model's bytes).
 #![allow(unused_imports, dead_code)]
 use crate::compile::*;
+use crate::definition_types as dt;
+use crate::dynval::{hex, unhex};
+use slice_codec::encoder::Encoder;
 use slicec::compilation_state::CompilationState;
+use slicec::diagnostics::DiagnosticLevel;
 use slicec::grammar::*;
 use slicec::slice_options::SliceOptions;
+use std::collections::HashSet;
+use std::panic::{catch_unwind, AssertUnwindSafe};
+
+/// `encode_generate_code_request` of slicec/src/main.rs (the translator asserts the shape of the original on every run:
+/// operation-name literal, module-less files skipped, `is_source` routing, sources encoded before references).
+fn encode_generate_code_request(parsed_files: &[slicec::slice_file::SliceFile]) -> Result<Vec<u8>, slice_codec::Error> {
+    let mut encoding_buffer: Vec<u8> = Vec::new();
+    let mut slice_encoder = Encoder::from(&mut encoding_buffer);
+    slice_encoder.encode("generateCode")?;
+    let mut source_files = Vec::new();
+    let mut reference_files = Vec::new();
+    for parsed_file in parsed_files {
+        if parsed_file.module.is_none() {
+            continue;
+        }
+        let converted_file = dt::SliceFile::from(parsed_file);
+        match parsed_file.is_source {
+            true => source_files.push(converted_file),
+            false => reference_files.push(converted_file),
+        }
+    }
+    slice_encoder.encode(&source_files)?;
+    slice_encoder.encode(&reference_files)?;
+    Ok(encoding_buffer)
+}
+
+/// the tail `spawn_plugin_process` writes after the payload
+fn encode_arguments(args: &[(String, String)]) -> Result<Vec<u8>, slice_codec::Error> {
+    let mut arguments_payload = Vec::new();
+    let mut slice_encoder = Encoder::from(&mut arguments_payload);
+    slice_encoder.encode(dt::Arguments(args.to_vec()))?;
+    Ok(arguments_payload)
+}
+
+// ------------------------------------------------------------------------------------------------
+// a reader that follows slice/Compiler/*.slice
+// ------------------------------------------------------------------------------------------------
+
+struct Rd<'a> { b: &'a [u8], p: usize }
+
+type R<T> = Result<T, String>;
+
+impl<'a> Rd<'a> {
+    fn take(&mut self, n: usize) -> R<&'a [u8]> {
+        if self.b.len() - self.p < n { return Err(format!("end of buffer at {} (wanted {})", self.p, n)); }
+        let s = &self.b[self.p..self.p + n];
+        self.p += n;
+        Ok(s)
+    }
+    fn u8(&mut self) -> R<u8> { Ok(self.take(1)?[0]) }
+    fn boolean(&mut self) -> R<bool> { match self.u8()? { 0 => Ok(false), 1 => Ok(true), v => Err(format!("bool byte {} at {}", v, self.p - 1)) } }
+    fn width(&self) -> R<usize> { if self.p >= self.b.len() { Err("end of buffer".into()) } else { Ok(1usize << (self.b[self.p] & 3)) } }
+    fn varuint(&mut self) -> R<u64> {
+        let w = self.width()?;
+        let mut raw = [0u8; 8];
+        raw[..w].copy_from_slice(self.take(w)?);
+        Ok(u64::from_le_bytes(raw) >> 2)
+    }
+    fn varint(&mut self) -> R<i64> {
+        let w = self.width()?;
+        let s = self.take(w)?;
+        let mut raw = if s[w - 1] & 0x80 != 0 { [0xffu8; 8] } else { [0u8; 8] };
+        raw[..w].copy_from_slice(s);
+        Ok(i64::from_le_bytes(raw) >> 2)
+    }
+    fn varint32(&mut self) -> R<i32> { i32::try_from(self.varint()?).map_err(|_| "varint32 out of range".to_string()) }
+    fn size(&mut self) -> R<usize> { Ok(self.varuint()? as usize) }
+    fn string(&mut self) -> R<String> {
+        let n = self.size()?;
+        String::from_utf8(self.take(n)?.to_vec()).map_err(|_| format!("invalid UTF-8 before {}", self.p))
+    }
+    fn i32le(&mut self) -> R<i32> { let mut a = [0u8; 4]; a.copy_from_slice(self.take(4)?); Ok(i32::from_le_bytes(a)) }
+    fn u64le(&mut self) -> R<u64> { let mut a = [0u8; 8]; a.copy_from_slice(self.take(8)?); Ok(u64::from_le_bytes(a)) }
+    /// the request carries no tagged fields: the tag end marker must follow immediately
+    fn tag_end(&mut self, what: &str) -> R<()> {
+        let at = self.p;
+        match self.varint32()? { -1 => Ok(()), t => Err(format!("{}: tag {} instead of the tag end marker at {}", what, t, at)) }
+    }
+    fn seq<T>(&mut self, mut f: impl FnMut(&mut Self) -> R<T>) -> R<Vec<T>> {
+        let n = self.size()?;
+        if n > self.b.len() - self.p { return Err(format!("sequence of {} elements with {} bytes left", n, self.b.len() - self.p)); }
+        let mut v = Vec::with_capacity(n);
+        for _ in 0..n { v.push(f(self)?); }
+        Ok(v)
+    }
+}
+
+#[derive(Default, Debug)]
+struct DSym {
+    kind: i32,
+    ident: String,
+    type_ids: Vec<String>,
+    underlying: Option<String>,
+    bases: Vec<String>,
+    /// identifiers of members relative to the symbol: `f`, `op`, `op::p`, `X`, `X::f`
+    members: Vec<String>,
+}
+
+#[derive(Debug)]
+struct DFile { path: String, module: String, syms: Vec<DSym> }
+
+fn r_attribute(r: &mut Rd) -> R<()> { r.string()?; r.seq(|r| r.string())?; r.tag_end("Attribute") }
+
+fn r_type_ref(r: &mut Rd, out: &mut Vec<String>) -> R<()> {
+    let id = r.string()?;
+    r.boolean()?;
+    r.seq(r_attribute)?;
+    r.tag_end("TypeRef")?;
+    out.push(id);
+    Ok(())
+}
+
+fn r_message_component(r: &mut Rd) -> R<()> {
+    match r.varint32()? { 0 | 1 => { r.string()?; } d => return Err(format!("MessageComponent discriminant {}", d)) }
+    r.tag_end("MessageComponent")
+}
+
+fn r_doc_comment(r: &mut Rd) -> R<()> { r.seq(r_message_component)?; r.seq(|r| r.string())?; r.tag_end("DocComment") }
+
+fn r_entity_info(r: &mut Rd) -> R<String> {
+    let bits = r.u8()?;
+    if bits > 1 { return Err(format!("EntityInfo bit sequence {:#x}", bits)); }
+    let ident = r.string()?;
+    r.seq(r_attribute)?;
+    if bits & 1 == 1 { r_doc_comment(r)?; }
+    r.tag_end("EntityInfo")?;
+    Ok(ident)
+}
+
+fn r_field(r: &mut Rd, type_ids: &mut Vec<String>) -> R<String> {
+    let bits = r.u8()?;
+    if bits > 1 { return Err(format!("Field bit sequence {:#x}", bits)); }
+    let ident = r_entity_info(r)?;
+    if bits & 1 == 1 { let t = r.varint32()?; if t < 0 { return Err(format!("negative tag {}", t)); } }
+    r_type_ref(r, type_ids)?;
+    r.tag_end("Field")?;
+    Ok(ident)
+}
+
+fn r_symbol(r: &mut Rd) -> R<DSym> {
+    let mut s = DSym { kind: r.varint32()?, ..Default::default() };
+    match s.kind {
+        0 => { // Interface
+            s.ident = r_entity_info(r)?;
+            s.bases = r.seq(|r| r.string())?;
+            let n = r.size()?;
+            for _ in 0..n {
+                let op = r_entity_info(r)?;
+                r.boolean()?;
+                let ps = { let mut v = vec![]; let k = r.size()?; for _ in 0..k { v.push(r_field(r, &mut s.type_ids)?); } v };
+                r.boolean()?;
+                let rs = { let mut v = vec![]; let k = r.size()?; for _ in 0..k { v.push(r_field(r, &mut s.type_ids)?); } v };
+                r.boolean()?;
+                r.tag_end("Operation")?;
+                for p in ps.iter().chain(rs.iter()) { s.members.push(format!("{}::{}", op, p)); }
+                s.members.push(op);
+            }
+            r.tag_end("Interface")?;
+        }
+        1 => { // BasicEnum
+            s.ident = r_entity_info(r)?;
+            r.boolean()?;
+            s.underlying = Some(r.string()?);
+            let n = r.size()?;
+            for _ in 0..n { let e = r_entity_info(r)?; r.u64le()?; r.boolean()?; r.tag_end("Enumerator")?; s.members.push(e); }
+            r.tag_end("BasicEnum")?;
+        }
+        2 => { // VariantEnum
+            s.ident = r_entity_info(r)?;
+            r.boolean()?; r.boolean()?;
+            let n = r.size()?;
+            for _ in 0..n {
+                let e = r_entity_info(r)?;
+                let d = r.i32le()?;
+                if d < 0 { return Err(format!("negative discriminant {}", d)); }
+                let k = r.size()?;
+                for _ in 0..k { let f = r_field(r, &mut s.type_ids)?; s.members.push(format!("{}::{}", e, f)); }
+                r.tag_end("Variant")?;
+                s.members.push(e);
+            }
+            r.tag_end("VariantEnum")?;
+        }
+        3 => { // Struct
+            s.ident = r_entity_info(r)?;
+            r.boolean()?;
+            let n = r.size()?;
+            for _ in 0..n { let f = r_field(r, &mut s.type_ids)?; s.members.push(f); }
+            r.tag_end("Struct")?;
+        }
+        4 => { s.ident = r_entity_info(r)?; r.tag_end("CustomType")?; }
+        5 => { r_type_ref(r, &mut s.type_ids)?; r.tag_end("SequenceType")?; }
+        6 | 7 => { r_type_ref(r, &mut s.type_ids)?; r_type_ref(r, &mut s.type_ids)?; r.tag_end(if s.kind == 6 { "DictionaryType" } else { "ResultType" })?; }
+        8 => { s.ident = r_entity_info(r)?; r_type_ref(r, &mut s.type_ids)?; r.tag_end("TypeAlias")?; }
+        d => return Err(format!("Symbol discriminant {}", d)),
+    }
+    r.tag_end("Symbol")?;
+    Ok(s)
+}
+
+fn r_slice_file(r: &mut Rd) -> R<DFile> {
+    let path = r.string()?;
+    let module = r.string()?;
+    r.seq(r_attribute)?;
+    r.tag_end("Module")?;
+    r.seq(r_attribute)?;
+    let syms = r.seq(r_symbol)?;
+    r.tag_end("SliceFile")?;
+    Ok(DFile { path, module, syms })
+}
+
+const PRIMS: [&str; 16] = ["bool", "int8", "uint8", "int16", "uint16", "int32", "uint32", "varint32", "varuint32", "int64", "uint64",
+    "varint62", "varuint62", "float32", "float64", "string"];
+
+/// decodes `bytes` as the request (+ arguments when `with_args`) and checks the structural invariants
+fn oracle(bytes: &[u8], with_args: bool, state: &CompilationState) -> R<()> {
+    let mut r = Rd { b: bytes, p: 0 };
+    let op = r.string()?;
+    if op != "generateCode" { return Err(format!("operation name {:?}", op)); }
+    let sources = r.seq(r_slice_file)?;
+    let references = r.seq(r_slice_file)?;
+    if with_args {
+        let n = r.size()?;
+        for _ in 0..n { r.string()?; r.string()?; }
+    }
+    if r.p != bytes.len() { return Err(format!("{} bytes left over", bytes.len() - r.p)); }
+
+    // split and order are those of the compilation (module-less files are not transmitted)
+    let want = |src: bool| -> Vec<String> { state.files.iter().filter(|f| f.is_source == src && f.module.is_some()).map(|f| f.relative_path.clone()).collect() };
+    let got = |fs: &Vec<DFile>| -> Vec<String> { fs.iter().map(|f| f.path.clone()).collect() };
+    if got(&sources) != want(true) { return Err(format!("source files {:?}, compiled {:?}", got(&sources), want(true))); }
+    if got(&references) != want(false) { return Err(format!("reference files {:?}, compiled {:?}", got(&references), want(false))); }
+
+    let mut types: HashSet<String> = HashSet::new();
+    let mut interfaces: HashSet<String> = HashSet::new();
+    let mut entities: HashSet<String> = HashSet::new();
+    for f in sources.iter().chain(references.iter()) {
+        for s in &f.syms {
+            if matches!(s.kind, 5 | 6 | 7) { continue; }
+            let id = format!("{}::{}", f.module, s.ident);
+            if matches!(s.kind, 1 | 2 | 3 | 4) { types.insert(id.clone()); }
+            if s.kind == 0 { interfaces.insert(id.clone()); }
+            for m in &s.members { entities.insert(format!("{}::{}", id, m)); }
+            entities.insert(id);
+        }
+    }
+    for f in sources.iter().chain(references.iter()) {
+        for (i, s) in f.syms.iter().enumerate() {
+            for id in &s.type_ids {
+                if !id.is_empty() && id.bytes().all(|c| c.is_ascii_digit()) {
+                    let j: usize = id.parse().map_err(|_| format!("numeric id {} too large", id))?;
+                    if j >= i { return Err(format!("{}: symbol {} uses numeric id {} (not earlier)", f.path, i, j)); }
+                    if !matches!(f.syms[j].kind, 5 | 6 | 7) { return Err(format!("{}: numeric id {} names a symbol of kind {}", f.path, j, f.syms[j].kind)); }
+                } else if !PRIMS.contains(&id.as_str()) && !types.contains(id) {
+                    return Err(format!("{}: type id {:?} names no transmitted struct / enum / custom type", f.path, id));
+                }
+            }
+            if let Some(u) = &s.underlying { if !PRIMS.contains(&u.as_str()) { return Err(format!("underlying {:?} is not a primitive", u)); } }
+            for b in &s.bases { if !interfaces.contains(b) { return Err(format!("{}: base {:?} names no transmitted interface", f.path, b)); } }
+        }
+    }
+    // links the compiler resolved must name transmitted entities
+    let mut check_comment = |c: Option<&DocComment>| -> R<()> {
+        if let Some(c) = c {
+            let mut links: Vec<String> = vec![];
+            let mut msg = |m: &Message| { for comp in &m.value { if let MessageComponent::Link(l) = comp { if let Ok(e) = l.linked_entity() { links.push(e.parser_scoped_identifier()); } } } };
+            if let Some(o) = &c.overview { msg(o); }
+            for p in &c.params { msg(&p.message); }
+            for s in &c.see { if let Ok(e) = s.linked_entity() { links.push(e.parser_scoped_identifier()); } }
+            for l in links { if !entities.contains(&l) { return Err(format!("resolved link {:?} names no transmitted entity", l)); } }
+        }
+        Ok(())
+    };
+    for f in state.files.iter().filter(|f| f.module.is_some()) {
+        for d in &f.contents {
+            match d {
+                Definition::Struct(p) => { let s = p.borrow(); check_comment(s.comment())?; for x in s.fields() { check_comment(x.comment())?; } }
+                Definition::Interface(p) => { let s = p.borrow(); check_comment(s.comment())?; for x in s.operations() { check_comment(x.comment())?; } }
+                Definition::Enum(p) => { let s = p.borrow(); check_comment(s.comment())?;
+                    for x in s.enumerators() { check_comment(x.comment())?; if x.fields.is_some() { for y in x.fields() { check_comment(y.comment())?; } } } }
+                Definition::CustomType(p) => check_comment(p.borrow().comment())?,
+                Definition::TypeAlias(p) => check_comment(p.borrow().comment())?,
+            }
+        }
+    }
+    Ok(())
+}
 
 pub fn project(state: CompilationState, options: SliceOptions, name: &str) -> String {
-    let _ = (&state, &options);
-    format!("unknown-projection:c08:{}", name)
+    let _ = &options;
+    let mut parts = name.split(';');
+    let head = parts.next().unwrap_or("");
+    if head != "request" { return format!("unknown-projection:c08:{}", name); }
+    let mut refs: Vec<usize> = vec![];
+    let mut args: Option<Vec<(String, String)>> = None;
+    for p in parts {
+        if let Some(l) = p.strip_prefix("r=") {
+            refs = l.split('.').filter(|x| !x.is_empty()).filter_map(|x| x.parse().ok()).collect();
+        } else if let Some(l) = p.strip_prefix("a=") {
+            let mut v = vec![];
+            for kv in l.split(',').filter(|x| !x.is_empty()) {
+                let (k, val) = kv.split_once(':').unwrap_or((kv, ""));
+                let d = |h: &str| if h.is_empty() { Some(String::new()) } else { unhex(h).and_then(|b| String::from_utf8(b).ok()) };
+                match (d(k), d(val)) { (Some(k), Some(val)) => v.push((k, val)), _ => return "bad-case".into() }
+            }
+            args = Some(v);
+        }
+    }
+    let mut state = state;
+    if state.diagnostics.has_errors() {
+        // main.rs builds no request when the compilation has errors
+        let mut v: Vec<String> = state.diagnostics.into_inner().iter().filter(|d| d.level() == DiagnosticLevel::Error).map(|d| d.code().to_string()).collect();
+        v.sort(); v.dedup();
+        return format!("errors:{}", v.join(","));
+    }
+    for (i, f) in state.files.iter_mut().enumerate() { f.is_source = !refs.contains(&i); }
+    let encoded = catch_unwind(AssertUnwindSafe(|| {
+        let mut bytes = encode_generate_code_request(&state.files)?;
+        if let Some(a) = &args { bytes.extend(encode_arguments(a)?); }
+        Ok::<Vec<u8>, slice_codec::Error>(bytes)
+    }));
+    match encoded {
+        Err(_) => "panic".into(),
+        Ok(Err(_)) => "refused".into(),
+        Ok(Ok(bytes)) => match oracle(&bytes, args.is_some(), &state) {
+            Ok(()) => if bytes.is_empty() { "-".into() } else { hex(&bytes) },
+            Err(reason) => format!("oracle-failed({})", reason.replace(['\t', '\n'], " ")),
+        },
+    }
 }
